@@ -109,6 +109,14 @@ def run_call(kind, cs, fault, at):
                 texts = [m.text for m in mid.tracks[0] if m.type == 'text']
                 if texts != [TEXTS[cs]] * 3:
                     probs.append(('load-text/' + cs, 'loaded texts %r expected %r' % (texts, TEXTS[cs])))
+                # clip concerns MIDI data bytes, not the 8-bit payload of meta events
+                try:
+                    mc = mido.MidiFile(file=io.BytesIO(data), charset=use_cs, clip=True)
+                    tc = [m.text for m in mc.tracks[0] if m.type == 'text']
+                except Exception as e:
+                    tc = repr(e)
+                if tc != [TEXTS[cs]] * 3:
+                    probs.append(('load-text-clip/' + cs, 'with clip=True loaded texts %r expected %r' % (tc, TEXTS[cs])))
             if ok and realised and fault not in ('none', 'truncate'):
                 probs.append(('fault-not-raised/%s' % fault, 'load with %s at %d succeeded' % (fault, at)))
             e = elsewhere()
